@@ -6,6 +6,7 @@ import os
 from unit import Unit
 from weave import FnSpec as F
 
+NEEDS_ASM_EXPANSION = True
 HERE = os.path.dirname(os.path.abspath(__file__))
 
 
